@@ -74,3 +74,16 @@ def run(ctx, report):
                 report.ob("ATOMIC", key, True, "non-Ok exit `%s` of %s leaves *self unwritten or restored" % (cause, short), cfgname, sp)
         if n_exits == 0:
             report.ob("ATOMIC", "%s/no-err-exit" % short, True, "%s has no non-Ok exit" % short, cfgname, f.span, nontrivial=False)
+
+
+_own_run = run
+
+
+def run(ctx, report):
+    _own_run(ctx, report)
+    from common import Only
+    from rules import c09, c12
+    # "leaves the record untouched" is observed through the record's encoding, size and text: they are functions of the
+    # record's own fields (a cache shared between the record and its working copy would show the rejected candidate)
+    c12._own_run(ctx, Only(report, {"FORM": "FORM"}))
+    c09._own_run(ctx, Only(report, {"SIZE": "SIZE"}))
